@@ -54,6 +54,12 @@ def size_checkers(f):
                 if a[0] == "call" and a[2] in allc:
                     allc.add(b.name)
                     changed = True
+                # `checker(limit, len)?` : the refusal is handed on through `?` (with the crate's own `From` conversion)
+                elif is_call(a, "core::ops::FromResidual::from_residual") and a[3] and isinstance(a[3][0], tuple) and a[3][0][0] == "residual":
+                    r_ = peel(a[3][0][1])
+                    if isinstance(r_, tuple) and r_[0] == "call" and r_[2] in allc and b.name not in allc:
+                        allc.add(b.name)
+                        changed = True
     return direct, allc, {}
 
 
@@ -114,7 +120,9 @@ def rule_pred(R):
         R.ob("pred/verdict/%s" % key, ok_none and verdict_ok and hits >= 1,
              "%s answers PacketTooLarge exactly on the edge where the predicate holds for a present broker limit, and never "
              "without a limit" % b.fn_name, where=b.span)
-    R.floor("pred", n, 4, "size predicates")
+    # at least one function compares against the limit itself, and the four places that need a verdict (control packets,
+    # PUBREL, retained packets, direct writes) have one -- directly or through a wrapper
+    R.floor("pred", n if n >= 1 and len(allc) >= 4 else 0, 1, "size predicates (with %d checker functions in all)" % len(allc))
 
 
 def checker_cont_edges(f, code, allc):
